@@ -24,7 +24,7 @@ GENERATORS = ["sq", "wave"]
 RULE = ("seeded trajectories: d∈{2,3} × species K∈1..6 (ids 1..K, every species present, random composition) × N≤26 (thorough: ≤40) × 1..3 frames "
         "× orthogonal box with pairwise different decimal-grid edges × positions on a decimal grid (also outside the box) × "
         "{explicit integer wave-vector list incl. ±/duplicate/zero vectors, default set from qrange with onlypositive∈{False,True,'x','y','z'}}; "
-        "judged only if the int() of numofq is ≥1e-6 from its flip point and distinct |q| are ≥1e-4 apart (exact ℚ check on |n/L|²); "
+        "judged only if the int() of numofq is ≥1e-6 from its flip point and distinct |q| are ≥4e-6 apart (exact ℚ check on |n/L|²; the code groups at 1e-6; every fifth box has nearly equal edges); "
         "non-trivial = some |q| group averages ≥2 vectors or partial columns exist (2≤K≤5); distinct = distinct literal inputs")
 TRUSTED_BASE = [
     "Lean 4.33 kernel; axioms propext, Classical.choice, Quot.sound only",
@@ -41,7 +41,7 @@ TRUSTED_BASE = [
 
 TOL = 2e-6
 KEYTOL = 1.5e-6
-MKEY_MIN = Fraction(4, 10 ** 10)      # ((q2-q1)/2π)² ≥ (2e-5)²  ⇒ q2-q1 ≥ 1.2e-4
+MKEY_MIN = Fraction(4, 10 ** 13)      # ((q2-q1)/2π)² ≥ (6.3e-7)²  ⇒ q2-q1 ≥ 4e-6: four times the 1e-6 resolution at which the code groups
 MINT_MIN = Fraction(1, 10 ** 6)
 
 
@@ -57,6 +57,12 @@ def gen_case(rng, tier="quick", force=None):
     T = rng.choice([1, 1, 2, 3])
     while True:
         L = [dec(rng, 3, 9, rng.choice([1, 2, 3])) for _ in range(d)]
+        if rng.random() < 0.2:
+            # nearly equal edges (an anisotropic barostat): |q| of (1,0,…) and (0,1,…) differ by a few 1e-5 — distinct shells at the
+            # code's 1e-6 resolution, which must NOT be averaged together
+            for j in range(1, d):
+                L[j] = str(Fraction(L[0]) + Fraction(rng.choice([4, 7, 10, -5, 12]), 10 ** 4) * j).replace("/", "/")
+                L[j] = format(float(Fraction(L[j])), ".4f")
         if len({Fraction(x) for x in L}) == d:
             break
     types = list(range(1, K + 1)) + [rng.randint(1, K) for _ in range(N - K)]
